@@ -37,7 +37,7 @@ TRIAGE = [
 def verify_triage_side_conditions(prog, ctx):
     f = prog.func(DSP, "DatasetProcessor.load_read_info")
     ok1 = any(isinstance(s, ast.Assign) and src(s.value).startswith("set(read_list(") for s in walk_no_nested(f))
-    g = prog.func(DSP, "collect_reads_in_parallel")
+    g = prog.func_inlined(DSP, "collect_reads_in_parallel")
     ok2 = any(isinstance(c, ast.Call) and src(c.func) == "read_grouper.read_groups.add" for c in walk_no_nested(g)) and \
         any(isinstance(l, ast.For) and "open(group_file)" in src(l.iter) for l in walk_no_nested(g))
     r = prog.func("src/long_read_assigner.py", "LongReadAssigner.resolve_by_nucleotide_score")
@@ -99,7 +99,7 @@ def o1(prog, ctx):
                      "%s: the order comes from iterating a hash-ordered set with (possibly) str elements [%s]; the result differs "
                      "between PYTHONHASHSEED values / worker processes" % (kind, origin[:160]))
     ctx.floor("O1", "order-materialising uses of set-kind expressions", n_sites, 40)
-    ctx.floor("O1", "triaged sinks still present", len(used), 5)
+    ctx.floor("O1", "triaged sinks still present", len(used), 3)
     # explicit hash() of strings
     for m, q, f in prog.all_functions():
         if m.rel == "src/read_mapper.py":
@@ -122,17 +122,43 @@ def o2(prog, ctx):
                 ctx.ok("O2", "%s:%d" % (m.rel, c.lineno), "%s: pool results consumed through map() (submission order)" % q)
     ctx.floor("O2", "ProcessPoolExecutor.map call sites", n, 1)
     mf = prog.func("src/file_utils.py", "merge_files")
-    sorts = [c for c in walk_no_nested(mf) if isinstance(c, ast.Call) and src(c.func) == "file_names.sort"]
-    loops = [l for l in walk_no_nested(mf) if isinstance(l, ast.For) and "file_names" in src(l.iter)]
-    if len(sorts) != 1 or not loops or sorts[0].lineno > loops[0].lineno:
-        ctx.fail("O2", mf, "merge_files", "file_names.sort", "per-chromosome files are not sorted before concatenation: the merged "
-                 "order would follow the chromosome-length order of the reference")
+    # the loop that copies the per-chromosome parts must run over a sequence sorted with the natural (digit-aware) key
+    copy_loops = [l for l in walk_no_nested(mf) if isinstance(l, ast.For) and any(isinstance(c, ast.Call) and (call_name(c) or "").endswith("copyfileobj")
+                                                                                   for c in ast.walk(l))]
+    verdict = "no loop copying the parts found"
+    okm = False
+    if len(copy_loops) == 1:
+        it = copy_loops[0].iter
+        if isinstance(it, ast.Call) and call_name(it) == "enumerate" and it.args:
+            it = it.args[0]
+        key = None
+        if isinstance(it, ast.Call) and call_name(it) == "sorted":
+            key = next((k.value for k in it.keywords if k.arg == "key"), None)
+            verdict = "sorted() without the natural key"
+        elif isinstance(it, ast.Name):
+            defs = [s_ for s_ in walk_no_nested(mf) if isinstance(s_, ast.Assign) and any(dotted(t) == it.id for t in s_.targets)
+                    and s_.lineno < copy_loops[0].lineno]
+            sorts = [c for c in walk_no_nested(mf) if isinstance(c, ast.Call) and src(c.func) == it.id + ".sort" and c.lineno < copy_loops[0].lineno]
+            verdict = "the iterated list %s is neither sorted() nor .sort()ed before the loop" % it.id
+            if sorts:
+                key = next((k.value for k in sorts[-1].keywords if k.arg == "key"), None)
+                verdict = ".sort() without the natural key"
+            elif defs and isinstance(defs[-1].value, ast.Call) and call_name(defs[-1].value) == "sorted":
+                key = next((k.value for k in defs[-1].value.keywords if k.arg == "key"), None)
+                verdict = "sorted() without the natural key"
+        if key is not None:
+            ktext = src(key)
+            if isinstance(key, ast.Name):
+                kf = prog.modules[mf._module.rel].functions.get(key.id)
+                ktext = src(kf) if kf is not None else ktext
+            okm = "isdigit" in ktext and "lower" in ktext
+            verdict = "merge order key is not the natural (digit-aware) order" if not okm else "ok"
+    if not okm:
+        ctx.fail("O2", copy_loops[0] if copy_loops else mf, "merge_files", "order of the merged parts", "per-chromosome files are not concatenated "
+                 "in the natural order of their names (%s): the merged order would follow the chromosome order of the reference / the task "
+                 "schedule" % verdict)
     else:
-        key = [k.value for k in sorts[0].keywords if k.arg == "key"]
-        if key and "isdigit" in src(key[0]) and "lower" in src(key[0]):
-            ctx.ok("O2", "src/file_utils.py:%d" % sorts[0].lineno, "merge_files sorts file names with the natural-order key before merging")
-        else:
-            ctx.fail("O2", sorts[0], "merge_files", src(sorts[0]), "merge order key is not the natural (digit-aware) order")
+        ctx.ok("O2", "src/file_utils.py:%d" % copy_loops[0].lineno, "merge_files copies the parts in natural-key order")
     gl = prog.func(DSP, "DatasetProcessor.get_chr_list")
     if "sorted(" not in src(gl) or "key=" not in src(gl):
         ctx.fail("O2", gl, gl._qualname, "chr list", "chromosome list is not sorted")
